@@ -28,6 +28,25 @@ Theorem C06_symbols_do_not_leak : forall texts1 texts2 t S0,
   nth_error (run_files (texts1 ++ t :: texts2) S0) (length texts1) = Some (run_text t S0).
 Proof. exact symbols_do_not_leak. Qed.
 
+(* "only inside selected regions", to any nesting depth: wherever the line-by-line reading stands, the current line is
+   selected only if every region around it is; a source line, #define or #undef below an unselected region does nothing;
+   and once a branch of a conditional was taken no later #elif / #else of it is selected (at most one branch per conditional).
+   By C06_tree_evaluation_is_line_by_line this is also what the implementation's tree evaluation does. *)
+Theorem C06_selected_means_all_enclosing_selected : forall ls S0 fs st,
+  steps ([], (S0, [])) ls = Some (fs, st) -> cur fs = true -> Forall (fun f => active f = true) fs.
+Proof. exact selected_means_all_enclosing_selected. Qed.
+Theorem C06_inside_unselected_nothing_happens : forall ls S0 fs st l,
+  steps ([], (S0, [])) ls = Some (fs, st) -> Exists (fun f => active f = false) fs ->
+  match l with LSrc _ | LDef _ | LUndef _ => step (fs, st) l = Some (fs, st) | _ => True end.
+Proof. exact inside_unselected_nothing_happens. Qed.
+Theorem C06_taken_blocks_later_branches : forall f r st l fs' st', taken f = true -> step (f :: r, st) l = Some (fs', st') ->
+  match l with LElif _ | LElse => cur fs' = false | _ => True end.
+Proof. exact taken_blocks_later_branches. Qed.
+Example C06_nesting_instance :
+  let A := [65%N] in
+  exists fs st, steps ([], ([], [])) [LIf (smem A); LIf (fun _ => true)] = Some (fs, st) /\ Exists (fun f => active f = false) fs /\ length fs = 2.
+Proof. eexists; eexists. vm_compute. split; [reflexivity|]. split; [left; reflexivity|reflexivity]. Qed.
+
 (* non-vacuity: "#if A / src1 / #define B / #elif B / src4 / #else / src6 / #endif / #if B / src9 / #endif" *)
 Example C06_instance :
   let A := [65%N] in let B := [66%N] in
